@@ -34,6 +34,7 @@ def run(ctx: Ctx) -> None:
     _memo.rule_isinstance_on_class(ctx, ['graphiq/solvers/solver_base.py', 'graphiq/solvers/evolutionary_solver.py'])
     _memo.rule_zip_truncation(ctx, ['graphiq/solvers/solver_base.py', 'graphiq/solvers/evolutionary_solver.py'])
     _memo.rule_search_fallthrough(ctx, ['graphiq/solvers/solver_base.py', 'graphiq/solvers/evolutionary_solver.py'])
+    _memo.rule_zip_pairing(ctx, ['graphiq/solvers/solver_base.py', 'graphiq/solvers/evolutionary_solver.py'])
     solvers.rule_rng(ctx)
     solvers.rule_sethash(ctx, [EVO, HYB, SB])
     solvers.rule_score_fresh(ctx)
